@@ -60,6 +60,17 @@ IsStrictlyIncreasing(s) == \A i \in 1..(Len(s) - 1) : s[i] < s[i + 1]
 IsNonDecreasing(s)      == \A i \in 1..(Len(s) - 1) : s[i] <= s[i + 1]
 IsNonIncreasing(s)      == \A i \in 1..(Len(s) - 1) : s[i] >= s[i + 1]
 
+(* exact comparison of a/b with c/d for positive 31-bit operands, no products *)
+RECURSIVE CmpFrac(_, _, _, _)
+CmpFrac(a, b, c, d) ==       \* returns -1, 0, 1 as a/b <,=,> c/d ; a,c >= 0 ; b,d > 0
+    LET qa == a \div b  qc == c \div d
+        ra == a % b     rc == c % d
+    IN IF qa # qc THEN (IF qa < qc THEN -1 ELSE 1)
+       ELSE IF ra = 0 /\ rc = 0 THEN 0
+       ELSE IF ra = 0 THEN -1
+       ELSE IF rc = 0 THEN 1
+       ELSE -CmpFrac(b, ra, d, rc)
+
 (***************************************************************************)
 (* Rationals <<n, d>>                                                      *)
 (***************************************************************************)
@@ -69,15 +80,23 @@ RNorm(r) == LET g == GCD(r[1], r[2]) IN
             ELSE IF r[2] < 0 THEN <<-(r[1] \div g), (-(r[2])) \div g>> ELSE <<r[1] \div g, r[2] \div g>>
 R(n, d)    == RNorm(<<n, d>>)
 RInt(n)    == <<n, 1>>
-RAdd(a, b) == RNorm(<<a[1] * b[2] + b[1] * a[2], a[2] * b[2]>>)
+RAdd(a, b) == LET d == LCM(a[2], b[2]) IN RNorm(<<a[1] * (d \div a[2]) + b[1] * (d \div b[2]), d>>)
 RNeg(a)    == <<-a[1], a[2]>>
 RSub(a, b) == RAdd(a, RNeg(b))
-RMul(a, b) == RNorm(<<a[1] * b[1], a[2] * b[2]>>)
-RInv(a)    == RNorm(<<a[2], a[1]>>)
+(* cross-reduced product: no intermediate exceeds the reduced result by more than a gcd *)
+RMul(a, b) == IF a[1] = 0 \/ b[1] = 0 THEN <<0, 1>>
+              ELSE LET g1 == GCD(a[1], b[2])  g2 == GCD(b[1], a[2])
+                   IN <<(a[1] \div g1) * (b[1] \div g2), (a[2] \div g2) * (b[2] \div g1)>>
+RInv(a)    == IF a[1] > 0 THEN <<a[2], a[1]>> ELSE IF a[1] < 0 THEN <<-a[2], -a[1]>> ELSE Assert(FALSE, "RInv(0)")
 RDiv(a, b) == RMul(a, RInv(b))
-REq(a, b)  == a[1] * b[2] = b[1] * a[2]
-RLt(a, b)  == a[1] * b[2] < b[1] * a[2]
-RLe(a, b)  == a[1] * b[2] <= b[1] * a[2]
+(* product-free three-way comparison (operands up to 31 bits) *)
+RCmp(a, b) == IF a[1] < 0 /\ b[1] >= 0 THEN -1
+              ELSE IF a[1] >= 0 /\ b[1] < 0 THEN 1
+              ELSE IF a[1] >= 0 THEN CmpFrac(a[1], a[2], b[1], b[2])
+              ELSE -CmpFrac(-a[1], a[2], -b[1], b[2])
+REq(a, b)  == RCmp(a, b) = 0
+RLt(a, b)  == RCmp(a, b) < 0
+RLe(a, b)  == RCmp(a, b) <= 0
 RAbs(a)    == <<Abs(a[1]), a[2]>>
 RFloor(a)  == Floor(a[1], a[2])
 RRoundHalfUp(a) == RoundHalfUp(a[1], a[2])
@@ -116,14 +135,4 @@ MulQ20(a, b) ==
         a1 == A \div 32768   a0 == A % 32768
         b1 == B \div 32768   b0 == B % 32768
     IN sa * sb * ((a1 * b1 * 1024) + ((a1 * b0 + a0 * b1) \div 32) + ((a0 * b0) \div 1048576))
-(* exact comparison of a/b with c/d for positive 31-bit operands, no products *)
-RECURSIVE CmpFrac(_, _, _, _)
-CmpFrac(a, b, c, d) ==       \* returns -1, 0, 1 as a/b <,=,> c/d ; a,c >= 0 ; b,d > 0
-    LET qa == a \div b  qc == c \div d
-        ra == a % b     rc == c % d
-    IN IF qa # qc THEN (IF qa < qc THEN -1 ELSE 1)
-       ELSE IF ra = 0 /\ rc = 0 THEN 0
-       ELSE IF ra = 0 THEN -1
-       ELSE IF rc = 0 THEN 1
-       ELSE -CmpFrac(b, ra, d, rc)
 =============================================================================
